@@ -145,7 +145,7 @@ class Run:
             self.ob(rule, inst + ".anchor", False, f"anchor missing: {e}", status="UNDISCHARGED",
                     detail="the code this rule is anchored in no longer resolves; the checker "
                            "cannot justify the clause (fail closed)")
-        except (KeyError, IndexError, AssertionError, TypeError, ValueError, AttributeError) as e:
+        except Exception as e:  # noqa: BLE001 - any failure of a rule is reported as undischarged, never as a crash
             tb = traceback.format_exc(limit=4)
             self.ob(rule, inst + ".shape", False,
                     f"checker precondition failed while evaluating rule ({type(e).__name__}: {e})",
